@@ -142,6 +142,21 @@ pub fn facts(files: &[(String, File)]) -> (String, String) {
   let mut exported_mods: Vec<String> = vec![];
   let mut provided_overrides: Vec<String> = vec![];
   let mut iterator_overrides: Vec<String> = vec![];
+  // which operand pairs get their `PartialEq` from the delegating macro, and comparison impls that come from elsewhere
+  let mut eq_macro_uses: Vec<String> = vec![];
+  let mut other_eq_macros: Vec<String> = vec![];
+  for (rel, f) in files {
+    for it in &f.items {
+      if let Item::Macro(m) = it {
+        if m.ident.is_none() && m.mac.path.is_ident("minivec_eq_impl") {
+          eq_macro_uses.push(norm(&m.mac.tokens));
+        } else if rel.ends_with("partial_eq.rs") && !(m.ident.as_ref().map(|i| i == "minivec_eq_impl").unwrap_or(false)) {
+          other_eq_macros.push(format!("{}!", m.ident.as_ref().map(|i| i.to_string()).unwrap_or_else(|| norm(&m.mac.path))));
+        }
+      }
+    }
+  }
+  eq_macro_uses.sort();
   for (_, f) in files {
     for it in &f.items {
       if let Item::Impl(im) = it {
@@ -412,6 +427,9 @@ pub fn facts(files: &[(String, File)]) -> (String, String) {
     l.push_str(&format!("def deleg_{} : Deleg := .{}\n", k, deleg.get(k).copied().unwrap_or("absent")));
   }
   l.push_str(&format!("\n/-- provided methods of PartialEq / PartialOrd / Ord / Hash / Debug that an impl for `MiniVec` overrides -/\ndef providedOverrides : Nat := {}\n", provided_overrides.len()));
+  l.push_str(&format!("\n/-- the operand pairs whose `PartialEq` comes from the delegating macro `minivec_eq_impl!` (sorted) -/\ndef eqMacroUses : List String := [{}]\n",
+    eq_macro_uses.iter().map(|m| format!("\"{}\"", m.replace('\\', "\\\\").replace('"', "\\\""))).collect::<Vec<_>>().join(", ")));
+  l.push_str(&format!("\n/-- other macros defined or used in partial_eq.rs (each could generate comparison impls of another shape) -/\ndef otherEqMacros : Nat := {}\n", other_eq_macros.len()));
   l.push_str(&format!("\n/-- provided methods of Iterator / DoubleEndedIterator / ExactSizeIterator / Clone (other than `len`) that an impl for\n    MiniVec or one of its iterators overrides -/\ndef iteratorOverrides : Nat := {}\n", iterator_overrides.len()));
   l.push_str("\n/-- a call of the global allocator API and the function it occurs in -/\ninductive AllocSite | growAlloc | growRealloc | dropDealloc | otherSite\n  deriving DecidableEq, Repr\n\n");
   let sites: Vec<&str> = alloc_sites
